@@ -3,7 +3,8 @@
 //! line:   L <TAB> main-hex <TAB> [name-hex=contents-hex;...] <TAB> requests (blank separated)
 //!         request:  a:<base>:<group>  format_annotated      t:<base>:<group>  format_tcgame
 //!                   s  format_addrspan      y  symbols format_default      m  symbols format_mesen_mlb
-//! answer: OK <TAB> bits (0/1 string or -) <TAB> spans <TAB> files <TAB> symbols <TAB> one field per request
+//! answer: OK <TAB> bits (0/1 string or -) <TAB> spans <TAB> files <TAB> symbols <TAB> banks <TAB> one field per request
+//!         banks    index:[-]addr_start-hex:addr_unit:outp|-:size|-  joined by ','  (every Bankdef; size in BITS; index 0 = the default bank)
 //!         spans    off|-:size:[-]addrhex:filehandle:start|-:end|-   joined by ','   (BitVec::spans order; or .)
 //!         files    handle:name-hex:contents-hex  joined by ','
 //!         symbols  index:depth:fullname-hex:kind(c|l|f|o):[-]valuehex|-:noemit(0|1):bank  joined by ','  (or .)
@@ -104,10 +105,19 @@ fn main() {
                 syms.push(format!("{}:{}:{}:{}:{}:{}:{}", i, decl.depth, hex(&decl.name), kind, value,
                     if sym.no_emit { 1 } else { 0 }, bank));
             }
-            let mut out = format!("OK\t{}\t{}\t{}\t{}", bits,
+            let mut banks: Vec<String> = Vec::new();
+            for i in 0..fd.bankdefs.defs.len() {
+                if let Some(b) = fd.bankdefs.maybe_get(util::ItemRef::new(i)) {
+                    banks.push(format!("{}:{}:{}:{}:{}", i, hexz(&b.addr_start), b.addr_unit,
+                        match b.output_offset { Some(x) => x.to_string(), None => "-".to_string() },
+                        match b.size { Some(x) => x.to_string(), None => "-".to_string() }));
+                }
+            }
+            let mut out = format!("OK\t{}\t{}\t{}\t{}\t{}", bits,
                 if spans.is_empty() { ".".to_string() } else { spans.join(",") },
                 files.join(","),
-                if syms.is_empty() { ".".to_string() } else { syms.join(",") });
+                if syms.is_empty() { ".".to_string() } else { syms.join(",") },
+                banks.join(","));
             for req in f[3].split_whitespace() {
                 let p: Vec<&str> = req.split(':').collect();
                 let num = |i: usize| -> usize { p.get(i).and_then(|x| x.parse().ok()).unwrap_or(0) };
